@@ -26,6 +26,8 @@ void cpu_window_open(CpuWin *w);
 void cpu_window_close(CpuWin *w);
 void cpu_cold_start();
 void cpu_lib_readonly(bool ro);
+void cpu_lib_monitor(bool on); // write-protect the library's own data for the whole process
+extern uint64_t g_slot_publications;
 size_t cpu_nslots();
 const std::string &cpu_slot_name(size_t i);
 std::string cpu_slot_target(size_t i);
